@@ -43,6 +43,15 @@ def _run(stmts, atoms, assign, target):
                 return r
         elif isinstance(st, (ast.Return, ast.Raise, ast.Continue, ast.Break)):
             return "left"
+        elif isinstance(st, ast.Assign) and len(st.targets) == 1 and isinstance(st.targets[0], ast.Name) and st.targets[0].id in atoms:
+            # a tested flag is rebound (e.g. `adapt = adapt or (adapt is None and self.training)`): follow the new value
+            name = st.targets[0].id
+            val = eval_bool(st.value, atoms, assign)      # Undecided propagates: the rule then reports it cannot decide
+            assign[atoms[name]] = bool(val)
+            if f"{name} is None" in atoms:
+                assign[atoms[f"{name} is None"]] = False
+            if f"{name} is not None" in atoms:
+                assign[atoms[f"{name} is not None"]] = True
         elif isinstance(st, (ast.With,)):
             r = _run(st.body, atoms, assign, target)
             if r in ("hit", "left"):
@@ -58,5 +67,5 @@ def table(stmts, atoms: dict, target, constraint=None):
         a = dict(zip(names, vals))
         if constraint is not None and not constraint(a):
             continue
-        out[vals] = reaches(stmts, atoms, a, target)
+        out[vals] = reaches(stmts, atoms, dict(a), target)
     return names, out
